@@ -1,2 +1,6 @@
 import AgdbRaft.Props.C29
+#print axioms Raft.C29_vote_requires_log_check
+#print axioms Raft.C29_prevote_requires_log_check
+#print axioms Raft.C29_grant_recorded
+#print axioms Raft.C29_rule_is_conjunctive
 #print axioms Raft.C29_leader_completeness_counterexample
